@@ -395,6 +395,63 @@ def assignments_to_return(body):
     return out
 
 
+def inline_pure(prog, t, exclude=(), depth=2, crates=("llfree", "llfree_eval", "replay")):
+    """Replaces calls to small local helper functions whose result is one straight-line expression of their parameters
+    by that expression (helper extraction / inlining is behaviour preserving and must not change a verdict).
+    Helpers with loops, several result sites or more than 8 blocks are left as calls."""
+    import cfg as _cfg
+    import terms as _T
+    if not isinstance(t, tuple) or not t:
+        return t
+    if t[0] == "call" and t[1] not in exclude and depth > 0:
+        cb = prog.body(t[1])
+        if cb is not None and cb.crate.name in crates and cb.nblocks() <= 8 and not _cfg.natural_loops(cb):
+            rets = assignments_to_return(cb)
+            if len(rets) == 1:
+                ctm = _T.Terms(cb, prog)
+                bi, si, rv = rets[0]
+                r = ctm.call_term(bi) if si == "term" else ctm.rvalue(rv)
+                if not any(x[0] == "l" for x in _T.walk(r)):
+                    for i in range(1, cb.arg_count + 1):
+                        if i - 1 < len(t[2]):
+                            r = _T.subst(r, ("p", i, cb.local_name(i) or "_%d" % i), t[2][i - 1])
+                    return inline_pure(prog, r, exclude, depth - 1, crates)
+    return tuple(inline_pure(prog, x, exclude, depth, crates) if isinstance(x, tuple) and x and isinstance(x[0], str)
+                 else (tuple(inline_pure(prog, y, exclude, depth, crates) if isinstance(y, tuple) else y for y in x) if isinstance(x, tuple) else x)
+                 for x in t)
+
+
+def resolve_upvars(prog, b, t):
+    import terms as _T
+    """For a closure body: replaces ('up', name[, field path]) by the term captured in the defining function."""
+    if b.kind != "closure":
+        return t
+    parent = prog.body(b.name.rsplit("::{closure#", 1)[0])
+    if parent is None:
+        return t
+    ptm = _T.Terms(parent, prog)
+    caps = None
+    for bi, si, s in parent.stmts():
+        if s["k"] == "assign" and s["rv"]["k"] == "aggregate" and s["rv"]["kind"]["k"] == "closure" and s["rv"]["kind"]["def"] == b.name:
+            caps = [ptm.operand(o) for o in s["rv"]["ops"]]
+    if caps is None:
+        return t
+    names = [u["name"] for u in b.j.get("upvars", [])]
+    table = {}
+    for n, cpt in zip(names, caps):
+        table[_T.canon(_T._upvar_term(n))] = resolve_upvars(prog, parent, _T.strip_refs(cpt))
+
+    def go(x):
+        if not isinstance(x, tuple) or not x:
+            return x
+        if isinstance(x[0], str):
+            cx = _T.canon(x)
+            if cx in table:
+                return table[cx]
+        return tuple(go(y) if isinstance(y, tuple) else y for y in x)
+    return go(t)
+
+
 def normalize_cmp(t):
     """For a comparison term returns (lhs, rel, rhs) with rel in {'le','lt','eq','ne'}
     meaning lhs rel rhs, or None."""
